@@ -197,12 +197,22 @@ def sql_step(pres, state_kw=None):
             return p.sql_state(**(state_kw or {}).get(p.tag, {}))
         return real_fn(cls, nd, needed_cols)
 
+    real_from_ast = Cache.__dict__["from_ast"]
+
+    def from_ast_stub(node):
+        p = by_node.get(id(node))
+        if p is not None:
+            return p.cache()
+        return real_from_ast.__func__(node)
+
     with H.patched():
         SqlImpl.compile_ast = classmethod(stub)
+        Cache.from_ast = staticmethod(from_ast_stub)
         try:
             yield lambda nd, needed: real_fn(H.sqlite_backend.SqliteImpl, nd, needed)
         finally:
             SqlImpl.compile_ast = orig
+            Cache.from_ast = real_from_ast
 
 
 def seq_eq(xs, ys):
